@@ -66,6 +66,7 @@ func main() {
 	repo := flag.String("repo", "/repo", "repository working tree")
 	verif := flag.String("verif", "/verif", "verif directory (evidence, replay, known findings)")
 	useCHA := flag.Bool("cha", false, "use the CHA call graph instead of VTA (thorough cross-check)")
+	dumpParams := flag.Bool("dumpparams", false, "print the parameter names of every module function as JSON (the reference table for refName) and exit")
 	noEv := flag.Bool("noevidence", false, "do not write evidence / replay files (used by the mutation self-test)")
 	jsonOut := flag.String("json", "", "write the obligation list to this file")
 	goarch := flag.String("goarch", "", "GOARCH override for the load")
@@ -115,6 +116,25 @@ func main() {
 	}()
 	if p != nil {
 		p.useCHA = *useCHA
+	}
+	if *dumpParams {
+		if p == nil {
+			fmt.Fprintln(os.Stderr, loadErr)
+			os.Exit(2)
+		}
+		out := map[string][]string{}
+		for _, fn := range p.ModuleFuncs() {
+			var names []string
+			for _, pa := range fn.Params {
+				names = append(names, pa.Name())
+			}
+			if len(names) > 0 {
+				out[FuncKey(fn)] = names
+			}
+		}
+		b, _ := json.MarshalIndent(out, "", " ")
+		fmt.Println(string(b))
+		return
 	}
 	loadDur := time.Since(loadStart)
 	exit := 0
